@@ -27,15 +27,20 @@ class Interop(core.Scenario):
         p = self.params
         iv, to = p['heartbeat']
         self.iv, self.to = iv, to
+        lat = self.lat = p.get('latency', 0.0)
         w = self.world = combo.ComboWorld(p['client'], p['server'],
-                                          server_kwargs=dict(ping_interval=iv, ping_timeout=to, async_handlers=False))
+                                          server_kwargs=dict(ping_interval=iv, ping_timeout=to, async_handlers=False), latency=lat)
         self.conn = w.cw.call('connect', 'http://h', transports=p['transports'])
-        w.run()
+        if lat:
+            # the connection (and the upgrade, which may straddle the first heartbeat) takes a dozen one-way trips
+            w.run_until(p.get('settle', 16) * lat)
+        else:
+            w.run()
         self.sid = w.cw.client.sid
         self.t_burst = 0.0
         self.idle_cycles = p.get('idle', 0)
-        self.t_end = (self.idle_cycles) * (iv) + 0.5 if self.idle_cycles else 0.0
-        self.horizon = self.t_end + iv + to + 8.0
+        self.t_end = w.now + ((self.idle_cycles) * (iv + 2 * lat) + 0.5 if self.idle_cycles else 0.0)
+        self.horizon = self.t_end + iv + to + 8.0 + 8 * lat
         n_c, n_s = p['c2s'], p['s2c']
         sid = self.sid
         self.issued = {'c': {}, 's': {}}
@@ -77,14 +82,14 @@ class Interop(core.Scenario):
         self.digests = []
 
     def step_check(self):
-        if not self.world.runnable():
+        if not self.world.runnable() and not self.world.net:
             self.quiet = self.world.nstep
             for d in ('c', 's'):
                 for i, st in self.issued[d].items():
                     if i not in self.settled[d] and st < self.quiet and self.disc_step is None:
                         self.settled[d].add(i)
         # lasso bookkeeping during the idle phase: digest at the same phase of consecutive heartbeat cycles
-        if self.idle_cycles and not self.world.runnable():
+        if self.idle_cycles and not self.lat and not self.world.runnable():
             t = self.world.now
             k = t / self.iv
             if abs(k - round(k)) < 1e-9 and 1 <= round(k) <= self.idle_cycles and t < self.t_end:
@@ -106,9 +111,15 @@ class Interop(core.Scenario):
         w = self.world
         p = self.params
         trig = '%s/%s' % ('+'.join(p['transports'] or ['both']), 'burst>16' if max(p['c2s'], p['s2c']) > 16 else 'burst<=16')
+        if self.lat:
+            trig += '/latency'
         if not self.conn.done or self.conn.exc:
             self.flag('connect_failed', 'connect(): done=%s exc=%r' % (self.conn.done, self.conn.exc), trigger=trig)
             return
+        if self.lat and p['transports'] is None and getattr(w.cw.client, 'current_transport', None) != 'websocket' and \
+                w.cw.client.state == 'connected':
+            self.flag('upgrade_not_completed', 'both transports allowed, latency %.3f: client still on %r at t=%.3f'
+                      % (self.lat, w.cw.client.current_transport, w.now), trigger=trig)
         w.run_until(self.horizon)
         cev, sev = w.cw.events, w.sw.events
         got_s = [e[2] for e in sev if e[0] == 'message']
@@ -165,7 +176,7 @@ class Interop(core.Scenario):
                     self.flag('idle_connection_died', 'after %d heartbeat cycles: client state %r, server session alive=%s' %
                               (self.idle_cycles, w.cw.client.state, self.sid in w.sw.live_sids()), trigger=trig)
                 ds = [d for k, d in self.digests]
-                if len(ds) >= 3 and not any(ds[i] == ds[i + 1] for i in range(1, len(ds) - 1)):
+                if not self.lat and len(ds) >= 3 and not any(ds[i] == ds[i + 1] for i in range(1, len(ds) - 1)):
                     self.flag('no_lasso', 'state digest never recurs over %d idle heartbeat cycles (growing state?)' % len(ds), trigger=trig)
         else:
             if len(cd) != 1 or len(sd) != 1:
@@ -204,6 +215,37 @@ def param_list(ctx, pairs):
     return ps
 
 
+def latency_list(ctx, pairs):
+    """Conversations over a network with a one-way delay: the handshake and the upgrade take time, so heartbeats fall
+    inside them, PONGs arrive late (but within ping_timeout) and bursts are in flight while the peer acts.
+
+    A PING emitted while an upgrade is in progress is held by the server until the upgrade completes, and its timeout
+    runs from the emission; the settings keep (duration of the handshake + one round trip) = 6 delays within
+    ping_timeout, so that the peer's PONG is always within ping_timeout of the PING's emission."""
+    ps = []
+    lats = (0.125, 0.25, 0.375) if ctx.quick else (0.0625, 0.125, 0.1875, 0.25, 0.3125, 0.375, 0.4375)
+    for c, s in pairs:
+        combos = []
+        for tr in (['polling'], ['websocket']):
+            for hb in ([1.0, 1.0], [2.0, 1.0]):
+                combos += [(tr, hb, lat) for lat in lats]
+        for hb, ls in (([1.0, 1.0], (0.0625, 0.125)), ([0.5, 1.0], (0.0625, 0.125)), ([0.75, 1.0], (0.125,)),
+                       ([1.0, 3.0], (0.25, 0.375)), ([2.0, 3.0], (0.375, 0.4375))):
+            combos += [(None, hb, lat) for lat in ls]
+        for tr, hb, lat in combos:
+            base_p = {'client': c, 'server': s, 'transports': tr, 'heartbeat': hb, 'latency': lat}
+            ps.append(dict(base_p, c2s=0, s2c=0, idle=5))
+            if hb[0] <= 1.0:
+                ps.append(dict(base_p, c2s=2, s2c=2))
+                ps.append(dict(base_p, c2s=17, s2c=17, atonce=True))
+                for who in ('client', 'server'):
+                    ps.append(dict(base_p, c2s=1, s2c=1, idle=2, disconnect=who))
+            # sends issued while the handshake / upgrade is still under way
+            if lat <= 0.25:
+                ps.append(dict(base_p, settle=3, c2s=2, s2c=2, idle=3))
+    return ps
+
+
 def deviation_list(ctx, pairs):
     ps = []
     for c, s in pairs:
@@ -232,7 +274,8 @@ def run(ctx):
     viols = []
     samples = []
     gate = {'replayed': 0, 'mismatches': 0}
-    for plist, bound in ((p0, 0), (small, 1 if ctx.quick else 2)):
+    plat = latency_list(ctx, allpairs)
+    for plist, bound in ((p0, 0), (plat, 0), (small, 1 if ctx.quick else 2)):
         s1, v1, sm, g1 = core.run_search(Interop, plist, bound, ctx.workers, ctx.seed)
         st.merge(s1)
         viols += v1
@@ -255,14 +298,14 @@ def run(ctx):
         'rule': '2x2 client/server pairs x transports {[polling],[websocket],both} x heartbeat {(1,1),(2,1)} x conversations: one-directional '
                 'bursts of %r sends with text/JSON/binary payloads, a 3+3 exchange, an idle period of 6 heartbeat cycles with a lasso check, '
                 'and disconnect by either side right after an exchange or after 2 idle cycles. The two applications are parallel scripts: '
-                'all interleavings everywhere; one deviation for the small conversations of the %s pairs. states = distinct (scenario, both '
+                'the same conversations over a virtual network with one-way delays of 1/16 .. 7/16 s (heartbeat settings chosen so that heartbeats fall inside the handshake and the upgrade while six delays stay within ping_timeout); all interleavings everywhere; one deviation for the small conversations of the %s pairs. states = distinct (scenario, both '
                 'event logs) digests.' % (BURSTS, 'same-kind' if ctx.quick else 'all'),
         'exhaustive': True, 'bound_completed': 1, 'caps_hit': st.caps,
         'executions_by_deviations': {str(k): v for k, v in sorted(st.by_dev.items())},
-        'scenarios': len(p0) + len(small), 'determinism_gate': gate,
+        'scenarios': len(p0) + len(small) + len(plat), 'latency_scenarios': len(plat), 'determinism_gate': gate,
     }
     rep.assumptions = [
-        'the network between the two real implementations is virtual: requests and frames are handed to the WSGI/ASGI gateway in zero time, in order, without loss',
+        'the network between the two real implementations is virtual: requests and frames are handed to the WSGI/ASGI gateway in order and without loss, in zero time or after a fixed one-way delay (round trip below ping_timeout)',
         'client-side handler order is judged at dispatch (message handlers are background tasks)',
         '"indefinitely": the idle phase runs 6 heartbeat cycles and the state digest must recur between consecutive cycles',
     ]
